@@ -61,7 +61,8 @@ def work(a):
     res = {"viol": [], "crash": [], "stat": {}, "err": None, "case": {"seed": seed, "variant": variant}, "leaks": []}
     try:
         with Scratch("c19") as cd:
-            images, info = c10.make_images(bdir, seed, cd, 0)
+            # every third image has an inode table beyond 64 KiB on disk: inode references above 2^32
+            images, info = c10.make_images(bdir, seed, cd, 0, bigmeta=(seed % 3 == 0))
             res["case"].update(info)
             img = os.path.join(cd, "valid.sqfs")
             v, c, st = run_batch(os.path.join(bdir, variant, "scn-copy"), img, seed % 1000003, 0, nruns)
@@ -85,7 +86,7 @@ def work(a):
 
 def run_one(bdir, seed, spec, variant="asan"):
     with Scratch("c19r") as cd:
-        images, _ = c10.make_images(bdir, seed, cd, 0)
+        images, _ = c10.make_images(bdir, seed, cd, 0, bigmeta=(seed % 3 == 0))
         p = subprocess.run([os.path.join(bdir, variant, "scn-copy"), "spec", os.path.join(cd, "valid.sqfs"), spec], stdout=subprocess.PIPE,
                            stderr=subprocess.PIPE, timeout=600)
         out = p.stdout.decode(errors="replace")
